@@ -913,8 +913,13 @@ impl RefI for Fisher {
 		let ft = if h.v == l.v {
 			Ap::exact(0.0)
 		} else {
-			let x = ((s - l) / (h - l) * 2.0 - 1.0).clamp(-0.999, 0.999);
-			x.map_mono(f64::atanh, 8.0)
+			// the bound is the ValueType constant 0.999
+			let bound = (0.999 as V) as f64;
+			let x = ((s - l) / (h - l) * 2.0 - 1.0).clamp(-bound, bound);
+			// atanh is evaluated through 1 - x and 1 + x: near the bound its rounding acts like a perturbation of x by a few eps
+			let xin = Ap::new(x.v, x.e + 4.0 * EPS);
+			let (lo, hi) = (xin.lo().max(-0.9999999), xin.hi().min(0.9999999));
+			Ap::from_interval(lo.atanh(), hi.atanh()).widen(8.0 * EPS * x.v.atanh().abs())
 		};
 		if self.prev.is_undefined() {
 			self.prev = Ap::rounded(f64::NAN, 1.0);
